@@ -256,24 +256,86 @@ Section Faults.
       + intros H; inversion H; subst. eapply fsurf_seq; eauto.
   Qed.
 
-  Lemma merge_f pulls : forall heap (w : world) ys e w1, w_merge pulls heap w = ((ys, e), w1) -> fsurf w w1 e.
+  Definition st_err (st : mstatus) : option exn := match st with MRaised e => Some e | _ => None end.
+
+  Lemma merge_f pulls : forall heap opn (w : world) ys st hs w1,
+    w_merge pulls heap opn w = ((ys, st, hs), w1) -> fsurf w w1 (st_err st).
   Proof.
-    induction pulls as [| p IH]; intros heap w ys e w1; simpl.
+    induction pulls as [| p IH]; intros heap opn w ys st hs w1; simpl.
     - intros H; inversion H; subst. apply fsurf_refl.
     - destruct heap as [| c0 h0]; [intros H; inversion H; subst; apply fsurf_refl |].
       destruct (pick_min _ _ (c0 :: h0)) as [[c rest] |]; [| intros H; inversion H; subst; apply fsurf_weaken, fsurf_refl].
       destruct (w_advance (wh A K D c) (wrest A K D c) w) as [[[c' |] | x] wa] eqn:E1; apply advance_f in E1; simpl in E1.
-      + destruct (w_merge p (c' :: rest) wa) as [[ys0 e0] wb] eqn:E2. apply IH in E2. intros H; inversion H; subst.
+      + destruct (w_merge p (c' :: rest) opn wa) as [[[ys0 st0] hs0] wb] eqn:E2. apply IH in E2. intros H; inversion H; subst.
         eapply fsurf_seq; eauto.
-      + destruct (w_merge p rest wa) as [[ys0 e0] wb] eqn:E2. apply IH in E2. intros H; inversion H; subst.
-        eapply fsurf_seq; eauto.
+      + destruct (w_merge p rest (remove_nat (wh A K D c) opn) wa) as [[[ys0 st0] hs0] wb] eqn:E2. apply IH in E2.
+        intros H; inversion H; subst. eapply fsurf_seq; eauto.
       + intros H; inversion H; subst. exact E1.
   Qed.
 
-  Lemma drop_f (w : world) : fsurf w (drop_iter D w) None.
-  Proof. unfold fsurf, drop_iter. simpl. split; [lia |]. split; [auto |]. intros n eno F. left. exists n. auto. Qed.
+  (* _MergingIterator.close(): every reader attempted; the only way it fails is the scheduled fault *)
+  Definition mclose_post (w w1 : world) (err err' : option exn) : Prop :=
+    (nx w <= nx w1)%nat /\
+    (flt w = None -> flt w1 = None /\ hit D w1 = hit D w /\ err' = err) /\
+    (forall n eno, flt w = Some (n, eno) ->
+       (exists n', flt w1 = Some (n', eno) /\ hit D w1 = hit D w /\ err' = err) \/
+       (flt w1 = None /\ err' = first_err err (OSError eno))).
 
-  Lemma iter_f (s : wsorter) p (w : world) ys e s' w' : w_iter s p w = ((ys, e), s', w') ->
+  Lemma mclose_post_trans w w1 w2 e0 e1 e2 : mclose_post w w1 e0 e1 -> mclose_post w1 w2 e1 e2 -> mclose_post w w2 e0 e2.
+  Proof.
+    intros (N1 & A1 & B1) (N2 & A2 & B2). split; [lia |]. split.
+    - intros F. destruct (A1 F) as (F1 & H1 & E1). destruct (A2 F1) as (F2 & H2 & E2). repeat split; congruence.
+    - intros n eno F. destruct (B1 n eno F) as [(n' & F1 & H1 & E1) | (F1 & E1)].
+      + destruct (B2 n' eno F1) as [(n'' & F2 & H2 & E2) | (F2 & E2)].
+        * left. exists n''. repeat split; congruence.
+        * right. split; [exact F2 | congruence].
+      + destruct (A2 F1) as (F2 & _ & E2). right. split; [exact F2 | congruence].
+  Qed.
+
+  Lemma mclose_f hs : forall (w : world) err err' w1, w_mclose D hs w err = (err', w1) -> mclose_post w w1 err err'.
+  Proof.
+    induction hs as [| h r IH]; intros w err err' w1 H; simpl in H.
+    - inversion H; subst. split; [lia |]. split; [auto |]. intros n eno F. left. exists n. auto.
+    - destruct (w_close_r D h w) as [[u | e] wa] eqn:E; apply close_r_f in E; destruct E as ((N & A0 & B) & S); simpl in *;
+        apply IH in H; (eapply mclose_post_trans; [| exact H]); (split; [exact N |]); split.
+      + intros F. destruct (A0 F). auto.
+      + intros n eno F. destruct (B n eno F) as [(n' & F1 & H1) | (_ & X)]; [| discriminate]. left. exists n'. auto.
+      + intros F. destruct (S ltac:(discriminate)) as (Nw & _). contradiction.
+      + intros n eno F. destruct (S ltac:(discriminate)) as (_ & Fa).
+        destruct (B n eno F) as [(n' & F1 & _) | (_ & X)]; [congruence |]. inversion X; subst.
+        right. split; [exact Fa |]. destruct err; reflexivity.
+  Qed.
+
+  Lemma close_merging_f ms : forall (w : world) err err' w1, w_close_merging D ms w err = (err', w1) -> mclose_post w w1 err err'.
+  Proof.
+    induction ms as [| hs r IH]; intros w err err' w1 H; simpl in H.
+    - inversion H; subst. split; [lia |]. split; [auto |]. intros n eno F. left. exists n. auto.
+    - destruct (w_mclose D hs w err) as [err1 wa] eqn:E. apply mclose_f in E. apply IH in H.
+      eapply mclose_post_trans; eauto.
+  Qed.
+
+  (* the finally clause of Sorter.__iter__ after the pending exception e *)
+  Lemma fsurf_finally w w3 w4 e eo : fsurf w w3 e -> mclose_post w3 w4 None eo ->
+    fsurf w w4 (match eo with Some x => Some x | None => e end).
+  Proof.
+    intros (N1 & A1 & B1) (N2 & A2 & B2). split; [lia |]. split.
+    - intros F. destruct (A1 F) as (F3 & H3). destruct (A2 F3) as (F4 & H4 & _). split; congruence.
+    - intros n eno F. destruct (B1 n eno F) as [(n' & F3 & H3) | (F3 & X)].
+      + destruct (B2 n' eno F3) as [(n'' & F4 & H4 & ->) | (F4 & ->)].
+        * left. exists n''. split; congruence.
+        * right. split; [exact F4 |]. left. reflexivity.
+      + destruct (A2 F3) as (F4 & _ & ->). right. split; assumption.
+  Qed.
+
+  Lemma finally_f (s : wsorter) ys e hs (w w3 : world) ys' e' s' w4 :
+    fsurf w w3 e -> w_finally A K D s ys e hs w3 = ((ys', e'), s', w4) -> fsurf w w4 e' /\ s' = s.
+  Proof.
+    intros F H. unfold SorterWorld.w_finally in H. destruct (w_mclose D hs w3 None) as [eo w1] eqn:E.
+    apply mclose_f in E. pose proof (fsurf_finally _ _ _ _ _ F E) as X.
+    destruct eo; inversion H; subst; split; auto.
+  Qed.
+
+  Lemma iter_f (s : wsorter) p keep (w : world) ys e s' w' : w_iter s p keep w = ((ys, e), s', w') ->
     (fsurf w w' e \/ (w' = w /\ wfds s' = wfds s)) /\
     (wfds s' = wfds s \/ (wfds s' = wfds s ++ [Some (nx w)] /\ (S (nx w) <= nx w')%nat)).
   Proof.
@@ -281,17 +343,23 @@ Section Faults.
     destruct (negb (is_nil (wpaths s)) || walways K D s).
     - destruct (w_spill s w) as [[e1 s1] w1] eqn:E1. apply spill_f in E1. destruct E1 as (F1 & I1). apply fsurf_lift in F1.
       destruct e1 as [x |]; [inversion H; subst; split; [left; exact F1 | exact I1] |].
-      assert (Fin : forall e2 w2, fsurf w1 w2 e2 ->
-                (fsurf w (drop_iter D w2) e2 \/ (drop_iter D w2 = w /\ wfds s1 = wfds s)) /\
-                (wfds s1 = wfds s \/ (wfds s1 = wfds s ++ [Some (nx w)] /\ (S (nx w) <= nx (drop_iter D w2))%nat))).
-      { intros e2 w2 F2. split.
-        - left. eapply fsurf_seq; [exact F1 |]. eapply fsurf_then; [exact F2 | apply drop_f].
-        - destruct I1 as [I1 | (I1 & N1)]; [left; exact I1 | right]. split; [exact I1 |].
-          destruct F2 as (N2 & _). simpl. lia. }
+      assert (Fin : forall e2 (w2 : world), fsurf w1 w2 e2 -> forall s2, wfds s2 = wfds s1 ->
+                (fsurf w w2 e2 \/ (w2 = w /\ wfds s2 = wfds s)) /\
+                (wfds s2 = wfds s \/ (wfds s2 = wfds s ++ [Some (nx w)] /\ (S (nx w) <= nx w2)%nat))).
+      { intros e2 w2 F2 s2 Es. split.
+        - left. eapply fsurf_seq; eauto.
+        - rewrite Es. destruct I1 as [I1 | (I1 & N1)]; [left; exact I1 | right]. split; [exact I1 |].
+          destruct F2 as (N2 & _). lia. }
       destruct (w_cursors (wpaths s1) w1) as [[heap | x] w2] eqn:E2; apply cursors_f in E2; simpl in E2.
-      + destruct (w_merge (S p) heap w2) as [[ys3 e3] w3] eqn:E3. apply merge_f in E3. inversion H; subst.
-        apply Fin. eapply fsurf_seq; eauto.
-      + inversion H; subst. apply Fin. exact E2.
+      2: { inversion H; subst. apply Fin; [exact E2 | reflexivity]. }
+      destruct (w_merge (S p) heap (map (wh A K D) heap) w2) as [[[ys3 st] hs] w3] eqn:E3. apply merge_f in E3.
+      assert (F13 : fsurf w1 w3 (st_err st)) by (eapply fsurf_seq; eauto).
+      destruct st as [| | e0]; simpl in F13.
+      + destruct (finally_f _ _ _ _ _ _ _ _ _ _ F13 H) as (F4 & ->). apply Fin; [exact F4 | reflexivity].
+      + destruct keep.
+        * inversion H; subst. apply Fin; [exact F13 | reflexivity].
+        * destruct (finally_f _ _ _ _ _ _ _ _ _ _ F13 H) as (F4 & ->). apply Fin; [exact F4 | reflexivity].
+      + destruct (finally_f _ _ _ _ _ _ _ _ _ _ F13 H) as (F4 & ->). apply Fin; [exact F4 | reflexivity].
     - destruct (sort_entries K D lt pick_min (wstash s)); inversion H; subst; (split; [right; split |]; auto).
   Qed.
 
@@ -371,19 +439,24 @@ Section Faults.
     - inversion H; subst. left. split; reflexivity.
   Qed.
 
-  Lemma iter_res (s : wsorter) p (w : world) r s' w' : WI s w -> w_iter s p w = (r, s', w') -> res_rel s s' w w'.
+  Lemma iter_res (s : wsorter) p keep (w : world) r s' w' : WI s w -> w_iter s p keep w = (r, s', w') -> res_rel s s' w w'.
   Proof.
     intros (_ & _ & _ & W & _) H. unfold SorterWorld.w_iter in H.
     destruct p as [| p]; [inversion H; subst; left; split; reflexivity |].
     destruct (negb (is_nil (wpaths s)) || walways K D s).
     - destruct (w_spill s w) as [[e1 s1] w1] eqn:E1. apply (spill_res _ _ _ _ _ W) in E1.
       destruct e1 as [x |]; [inversion H; subst; exact E1 |].
-      assert (Fin : forall w2, quiet D w1 w2 -> res_rel s s1 w (drop_iter D w2)).
-      { intros w2 (_ & Q & _). unfold res_rel, drop_iter in *. simpl. rewrite Q. exact E1. }
+      assert (Fin : forall (w2 : world) s2, quiet D w1 w2 -> wfds s2 = wfds s1 -> res_rel s s2 w w2).
+      { intros w2 s2 (_ & Q & _) Es. unfold res_rel in *. rewrite Q, Es. exact E1. }
       destruct (w_cursors (wpaths s1) w1) as [[heap | x] w2] eqn:E2; apply cursors_quiet in E2.
-      + destruct (w_merge (S p) heap w2) as [r3 w3] eqn:E3. apply merge_quiet in E3. inversion H; subst.
-        apply Fin. eapply quiet_trans; eauto.
-      + inversion H; subst. apply Fin. exact E2.
+      2: { inversion H; subst. apply Fin; [| reflexivity]. destruct E2 as (a & b & c). repeat split; assumption. }
+      destruct (w_merge (S p) heap (map (wh A K D) heap) w2) as [[[ys3 st] hs] w3] eqn:E3. apply merge_quiet in E3.
+      assert (Q13 : quiet D w1 w3) by (eapply quiet_trans; eauto).
+      assert (FinF : forall e0 r0 s0 w0, w_finally A K D s1 ys3 e0 hs w3 = (r0, s0, w0) -> res_rel s s0 w w0).
+      { intros e0 r0 s0 w0 Hf. apply finally_WI in Hf; [| apply incl_refl]. destruct Hf as (-> & Q4 & _).
+        apply Fin; [eapply quiet_trans; eauto | reflexivity]. }
+      destruct st as [| | e0]; [eapply FinF; exact H | | eapply FinF; exact H].
+      destruct keep; [inversion H; subst; apply Fin; [exact Q13 | reflexivity] | eapply FinF; exact H].
     - destruct (sort_entries K D lt pick_min (wstash s)); inversion H; subst; left; split; reflexivity.
   Qed.
 
@@ -402,11 +475,11 @@ Section Faults.
     destruct F as [F | (-> & _)]; [apply (fsurfx_nx _ _ _ F) | lia].
   Qed.
 
-  Lemma iter_WI2 (s : wsorter) p (w : world) ys e s' w' : WI2 s w -> w_iter s p w = ((ys, e), s', w') -> WI2 s' w'.
+  Lemma iter_WI2 (s : wsorter) p keep (w : world) ys e s' w' : WI2 s w -> w_iter s p keep w = ((ys, e), s', w') -> WI2 s' w'.
   Proof.
     intros I2 H. pose proof I2 as (I & _).
-    pose proof (iter_WI A K D keyf lt dec pick_min eof s p w _ s' w' I H) as I'.
-    pose proof (iter_res _ _ _ _ _ _ I H) as R. destruct (iter_f _ _ _ _ _ _ _ H) as (F & Id).
+    pose proof (iter_WI A K D keyf lt dec pick_min eof s p keep w _ s' w' I H) as I'.
+    pose proof (iter_res _ _ _ _ _ _ _ I H) as R. destruct (iter_f _ _ _ _ _ _ _ _ H) as (F & Id).
     eapply WI2_grow; [exact I2 | exact I' | | apply merge_id; assumption].
     destruct F as [F | (-> & _)]; [apply (fsurf_nx _ _ _ F) | lia].
   Qed.
@@ -549,10 +622,20 @@ Section Faults.
   Lemma close_f (s : wsorter) (w : world) e s' w' : WI2 s w -> w_close s w = (e, s', w') ->
     WI2 s' w' /\ close_post w w' None e.
   Proof.
-    intros (I & Fw & Nd & Pr) H. pose proof (close_spec K D s w e s' w' I H) as (I' & Fd & AllNone & _).
+    intros (I & Fw & Nd & Pr) H. pose proof (close_spec K D s w e s' w' I H) as (I' & Fd & _ & AllNone & _).
     pose proof I as (_ & _ & L & _).
-    unfold SorterWorld.w_close in H. destruct (w_close_loop (wpaths s) (wfds s) w None []) as [[err rem] w1] eqn:E.
-    inversion H; subst. pose proof (close_loop_f _ _ _ _ _ _ _ _ E L Nd Pr) as P. split; [| exact P].
+    unfold SorterWorld.w_close in H.
+    destruct (w_close_merging D (wmerging K D s) w None) as [err0 w0] eqn:E0.
+    pose proof (close_merging_spec D _ _ _ _ _ E0) as ((_ & Qf & _) & _).
+    apply close_merging_f in E0.
+    destruct (w_close_loop (wpaths s) (wfds s) w0 err0 []) as [[err rem] w1] eqn:E.
+    inversion H; subst.
+    assert (Pr0 : forall fd, In (Some fd) (wfds s) -> In fd (fds D w0)) by (intros fd Hfd; rewrite Qf; apply Pr; exact Hfd).
+    pose proof (close_loop_f _ _ _ _ _ _ _ _ E L Nd Pr0) as P1.
+    assert (P0 : close_post w w0 None err0).
+    { destruct E0 as (N & A0 & B). split; [exact N |]. split; [exact A0 |]. intros n eno F _.
+      destruct (B n eno F) as [(n' & X & Y & Z) | (X & Y)]; [left; exists n'; auto | right; split; [exact X | left; exact Y]]. }
+    pose proof (close_post_trans _ _ _ _ _ _ P0 P1) as P. split; [| exact P].
     split; [exact I' |]. split; [intros fd Hfd; rewrite Fd in Hfd; destruct Hfd |]. split.
     - simpl. clear. induction rem; simpl; [constructor | assumption].
     - intros fd Hfd. apply AllNone in Hfd. discriminate.
@@ -566,11 +649,11 @@ Section Faults.
 
   Lemma step_WI2 (s : wsorter) o (w : world) out ys s' w' : WI2 s w -> w_step s o w = (out, ys, s', w') -> WI2 s' w'.
   Proof.
-    intros I H. unfold SorterWorld.w_step in H. destruct o as [x | p |].
+    intros I H. unfold SorterWorld.w_step in H. destruct o as [x | p keep |].
     - destruct (tainted K D s); [inversion H; subst; exact I |].
       destruct (w_add s x w) as [[e s1] w1] eqn:E. inversion H; subst. eapply add_WI2; eauto.
     - destruct (tainted K D s); [inversion H; subst; exact I |].
-      destruct (w_iter s p w) as [[[ys0 e] s1] w1] eqn:E. inversion H; subst. eapply iter_WI2; eauto.
+      destruct (w_iter s p keep w) as [[[ys0 e] s1] w1] eqn:E. inversion H; subst. eapply iter_WI2; eauto.
     - destruct (w_close s w) as [[e s1] w1] eqn:E. inversion H; subst.
       destruct (close_f _ _ _ _ _ I E) as (I1 & _). exact I1.
   Qed.
@@ -622,10 +705,10 @@ Section Faults.
   Theorem step_surfaces (s : wsorter) o (w : world) out ys s' w' eno :
     WI2 s w -> w_step s o w = (out, ys, s', w') -> fires w w' eno ->
     out = ORaise (OSError eno) \/
-    (eof = true /\ (exists p, o = OpIter A p) /\ out = ORaise PlainException) \/
+    (eof = true /\ (exists p k, o = OpIter A p k) /\ out = ORaise PlainException) \/
     (eno = true /\ o = OpClose A /\ hit D w' = Some COsRemove /\ out = OOk).
   Proof.
-    intros I H Fi. unfold SorterWorld.w_step in H. destruct o as [x | p |].
+    intros I H Fi. unfold SorterWorld.w_step in H. destruct o as [x | p keep |].
     - destruct (tainted K D s).
       { inversion H; subst. destruct Fi as ((n & F) & F'). congruence. }
       destruct (w_add s x w) as [[e s1] w1] eqn:E. inversion H; subst. left.
@@ -634,10 +717,10 @@ Section Faults.
       + destruct Fi as ((n & F) & F'). congruence.
     - destruct (tainted K D s).
       { inversion H; subst. destruct Fi as ((n & F) & F'). congruence. }
-      destruct (w_iter s p w) as [[[ys0 e] s1] w1] eqn:E. inversion H; subst.
-      destruct (iter_f _ _ _ _ _ _ _ E) as ([F | (-> & _)] & _).
+      destruct (w_iter s p keep w) as [[[ys0 e] s1] w1] eqn:E. inversion H; subst.
+      destruct (iter_f _ _ _ _ _ _ _ _ E) as ([F | (-> & _)] & _).
       + destruct (fsurf_fires _ _ _ _ F Fi) as [-> | (Ef & ->)]; [left; reflexivity |].
-        right. left. split; [exact Ef |]. split; [exists p; reflexivity | reflexivity].
+        right. left. split; [exact Ef |]. split; [exists p, keep; reflexivity | reflexivity].
       + destruct Fi as ((n & F) & F'). congruence.
     - destruct (w_close s w) as [[e s1] w1] eqn:E. inversion H; subst.
       destruct (close_f _ _ _ _ _ I E) as (_ & P).
@@ -692,8 +775,8 @@ Section Faults.
     WI2 (ws A K D wr) w -> wr_close wr w = (o, wr', w') -> WI2 (ws A K D wr') w'.
   Proof.
     intros I H. unfold SorterWorld.wr_close in H. destruct (tainted K D (ws A K D wr)); [inversion H; subst; exact I |].
-    destruct (w_iter (ws A K D wr) (S (total_items K D (ws A K D wr) w)) w) as [[[ys e] s1] w1] eqn:E.
-    pose proof (iter_WI2 _ _ _ _ _ _ _ I E) as I1.
+    destruct (w_iter (ws A K D wr) (S (total_items K D (ws A K D wr) w)) false w) as [[[ys e] s1] w1] eqn:E.
+    pose proof (iter_WI2 _ _ _ _ _ _ _ _ I E) as I1.
     destruct e as [x |]; [inversion H; subst; exact I1 |].
     destruct (w_close s1 w1) as [[e2 s2] w2] eqn:E2. destruct (close_f _ _ _ _ _ I1 E2) as (I2 & _).
     destruct e2; inversion H; subst; exact I2.
@@ -722,9 +805,9 @@ Section Faults.
   Proof.
     intros I H Fi. unfold SorterWorld.wr_close in H. destruct (tainted K D (ws A K D wr)).
     { inversion H; subst. destruct Fi as ((n & F) & F'). congruence. }
-    destruct (w_iter (ws A K D wr) (S (total_items K D (ws A K D wr) w)) w) as [[[ys e] s1] w1] eqn:E.
-    pose proof (iter_WI2 _ _ _ _ _ _ _ I E) as I1.
-    destruct (iter_f _ _ _ _ _ _ _ E) as (F1 & _).
+    destruct (w_iter (ws A K D wr) (S (total_items K D (ws A K D wr) w)) false w) as [[[ys e] s1] w1] eqn:E.
+    pose proof (iter_WI2 _ _ _ _ _ _ _ _ I E) as I1.
+    destruct (iter_f _ _ _ _ _ _ _ _ E) as (F1 & _).
     destruct e as [x |].
     - inversion H; subst. destruct F1 as [F1 | (-> & _)].
       + destruct (fsurf_fires _ _ _ _ F1 Fi) as [X | (Ef & X)]; inversion X; [left; reflexivity | right; left; auto].
